@@ -19,7 +19,8 @@ BOUNDS = {
     'thorough': 'pre-emption bound 2 (3 for the two-files-one-directory scenario), 3 workers',
 }
 ASSUMPTIONS = [
-    'thread switches only at environment calls and lock operations (not between arbitrary bytecodes)',
+    'thread switches at environment calls and lock operations; in the families marked lines additionally before every '
+    'source line of the library executed by a worker (one pre-emption); never between bytecodes of one line',
     'the operations issued by different workers are independent (different keys, no worker queries what another builds)',
 ]
 WITNESSES = {'quick': ['preempted', 'both-succeeded', 'one-failed'], 'thorough': ['preempted']}
@@ -49,6 +50,7 @@ def families(tier):
         {'name': 'in-subbuild', 'params': {'P': 1, 'hist': 'BT', 'reuse': True}, 'weight': 1},
         {'name': 'nested-dirs', 'params': {'P': 1, 'hist': 'BT'}, 'weight': 1},
         {'name': 'one-fails', 'params': {'P': 1, 'hist': 'BT'}, 'weight': 1},
+        {'name': 'same-dir', 'params': {'P': 1, 'hist': 'T', 'lines': True}, 'weight': 2},
         {'name': 'same-dir', 'params': {'P': 2, 'hist': 'T'}, 'weight': 2},
         {'name': 'one-fails', 'params': {'P': 2, 'hist': 'T'}, 'weight': 2},
         {'name': 'deep-shared', 'params': {'P': 2, 'hist': 'T'}, 'weight': 2},
@@ -63,6 +65,9 @@ def families(tier):
         {'name': 'both-fail', 'params': {'P': 2, 'hist': 'T'}, 'weight': 3},
         {'name': 'deep-shared', 'params': {'P': 2, 'hist': 'T'}, 'weight': 3},
         {'name': 'three', 'params': {'P': 1, 'hist': 'T'}, 'weight': 4},
+        {'name': 'one-fails', 'params': {'P': 1, 'hist': 'T', 'lines': True}, 'weight': 3},
+        {'name': 'in-subbuild', 'params': {'P': 1, 'hist': 'BT', 'reuse': True, 'lines': True}, 'weight': 3},
+        {'name': 'nested-dirs', 'params': {'P': 1, 'hist': 'T', 'lines': True}, 'weight': 3},
         {'name': 'same-dir', 'params': {'P': 2, 'hist': 'BT', 'reuse': True}, 'weight': 3},
         {'name': 'in-subbuild', 'params': {'P': 2, 'hist': 'BT', 'reuse': True}, 'weight': 3},
         {'name': 'one-fails', 'params': {'P': 2, 'hist': 'BT'}, 'weight': 3},
@@ -105,7 +110,7 @@ class Prog:
 def harness(eng, fam, P):
     from file_builder import FileBuilder
     ops = SCEN[fam]
-    w = World(eng, ['d', 'd/a', 'd/z'], sandbox=getattr(eng, 'sandbox', None))
+    w = World(eng, ['d', 'd/a', 'd/z'] if not P.get('lines') else ['d'], sandbox=getattr(eng, 'sandbox', None))
     contents = [eng.fresh_int('c%d' % i) for i in range(len(ops))]
     eng.path_info.update({'scenario': fam, 'ops': ops, 'P': P['P']})
     state = RefState()
@@ -128,7 +133,7 @@ def harness(eng, fam, P):
         info = {}
 
         def root(b):
-            s = Sched(eng, P['P'])
+            s = Sched(eng, P['P'], lines=bool(P.get('lines')))
             hook = install(w, s)
             res = {}
             ts = []
